@@ -708,6 +708,34 @@ func c02compensatedCase(c *vf.Ctx, i int) {
 		c.Nontrivial(vf.Mix(0xc0a, uint64(i), vf.HashBytes(sym)))
 		return
 	}
+	if i%5 == 2 {
+		// (c) separator games: the checksum is computed over a VARIANT of the
+		// prefix shown (with a leading or trailing ':', empty, doubled), on
+		// the built-in nets and on nets without / with an odd SLP prefix
+		shown := append(append([]string{}, c02knownPrefixes...), c02unknownPrefixes...)[r.Intn(len(c02knownPrefixes)+len(c02unknownPrefixes))]
+		nets := append([]netInfo{}, allNets...)
+		nets = append(nets,
+			netInfo{"custom-no-slp", &chaincfg.Params{CashAddressPrefix: shown}},
+			netInfo{"custom-no-slp-other", &chaincfg.Params{CashAddressPrefix: "bchcustom"}},
+			netInfo{"custom-slp-is-colon-prefix", &chaincfg.Params{CashAddressPrefix: "bchcustom", SlpAddressPrefix: ":" + shown}})
+		for _, over := range []string{":" + shown, shown + ":", "", shown + ":" + shown, ":", "bchsim:" + shown, ":bchsim", shown} {
+			body := ref.CashEncodeSymbols(over, sym)
+			for _, str := range []string{shown + ":" + body, ":" + shown + ":" + body, shown + "::" + body, ":" + body, body, asciiUpper(shown + ":" + body)} {
+				for _, net := range nets {
+					if over == shown && (net.P.CashAddressPrefix == shown || net.P.SlpAddressPrefix == shown) && (str == shown+":"+body || str == body || str == asciiUpper(shown+":"+body)) {
+						continue // the honest string: covered by the other streams
+					}
+					c.Inc("compensated/checksum-over-prefix-variant")
+					c02verify(c, "prefix-variant", "prefix-variant", "prefixed", str, net)
+				}
+				if len(sym) >= 8 {
+					c02verifyCash(c, "prefix-variant", str)
+				}
+			}
+		}
+		c.Nontrivial(vf.Mix(0xc0c, vf.HashString(shown), vf.HashBytes(sym)))
+		return
+	}
 	// (b) long prefixes
 	plen := []int{31, 32, 33, 34, 40, 64, 83}[(i/2)%7]
 	pb := make([]byte, plen)
